@@ -155,7 +155,7 @@ fn lark_pair_case(out: &mut Out, env: &TokEnv, r1: (usize, Option<usize>), r2: (
 fn json_case(out: &mut Out, env: &TokEnv, kind: &str, lo: usize, hi: Option<usize>) {
     let mut schema = match kind {
         "items" => serde_json::json!({"type": "array", "items": {"const": 1}}),
-        "length_ascii" | "length_2byte" | "length_3byte" | "length_4byte" | "length_escape" => serde_json::json!({"type": "string"}),
+        "length_ascii" | "length_2byte" | "length_3byte" | "length_4byte" | "length_escape" | "length_uescape" | "length_quote" => serde_json::json!({"type": "string"}),
         "props" => serde_json::json!({"type": "object", "additionalProperties": {"const": 1}}),
         _ => unreachable!(),
     };
@@ -183,6 +183,9 @@ fn json_case(out: &mut Out, env: &TokEnv, kind: &str, lo: usize, hi: Option<usiz
         "length_3byte" => accepted_counts(&mut m, b"\"", "€".as_bytes(), b"", b"\"", max),
         "length_4byte" => accepted_counts(&mut m, b"\"", "😀".as_bytes(), b"", b"\"", max),
         "length_escape" => accepted_counts(&mut m, b"\"", b"\\n", b"", b"\"", max),
+        // a six-byte \uXXXX escape and an escaped quote are one character each
+        "length_uescape" => accepted_counts(&mut m, b"\"", b"\\u0001", b"", b"\"", max),
+        "length_quote" => accepted_counts(&mut m, b"\"", b"\\\"", b"", b"\"", max),
         "props" => {
             // distinct keys k0, k1, ... : feed incrementally
             let mut acc = vec![];
@@ -428,7 +431,7 @@ pub fn run(_rng: &mut Rng, out: &mut Out, tier: &str) {
         lark_pair_case(out, &env, r2, r1, true);
     }
     let jt = if tier == "thorough" { 40 } else { 14 };
-    for kind in ["items", "length_ascii", "length_2byte", "length_3byte", "length_4byte", "length_escape", "props"] {
+    for kind in ["items", "length_ascii", "length_2byte", "length_3byte", "length_4byte", "length_escape", "length_uescape", "length_quote", "props"] {
         for hi in 0..=jt {
             for lo in 0..=hi {
                 json_case(out, &env, kind, lo, Some(hi));
